@@ -494,7 +494,8 @@ struct BigInt {
             ++index;
         }
 
-        while (index_ > index) {
+        // index is (src.index_ + 1) here, never zero: the word at that position belongs to the old value too.
+        while (index_ >= index) {
             storage_[index_] = 0;
             --index_;
         }
